@@ -83,6 +83,8 @@ def POp.WF : POp → Prop
   | .viewHas g t => WFGraphName g ∧ WFTriple t
   | .viewIter g _ => WFGraphName g
 
+instance : DecidablePred POp.WF := fun op => by cases op <;> unfold POp.WF <;> infer_instance
+
 /-- What the same operation means on a plain set of quads. A per-graph view is the set of the
     quads with that graph name. -/
 def POp.spec : POp → Spec.QuadSet.Op Quad
@@ -103,6 +105,12 @@ def OutAgrees : Out → Spec.QuadSet.Out Quad → Prop
   | .bool b, .bool b' => b = b'
   | .quads l, .list l' => l.Perm l'
   | .triples l, .list l' => l.Perm (l'.map Quad.triple)
+  | _, _ => False
+
+/-- Output lists agree position by position (and have the same length). -/
+def OutsAgree : List Out → List (Spec.QuadSet.Out Quad) → Prop
+  | [], [] => True
+  | a :: as, b :: bs => OutAgrees a b ∧ OutsAgree as bs
   | _, _ => False
 
 /-- States the dataset can be in: after any finite history of well-formed operations on a new dataset. -/
